@@ -9,7 +9,7 @@
     omission").  [norm] is the custom parser of Duration / PintUnit / PintQuantity
     composed with its JSON encoder; it and the text-level codecs are premises. *)
 From Coq Require Import List String Ascii ZArith Bool.
-From MV Require Import Base.Sx Schema.RoundTrip Schema.RoundTripProofs.
+From MV Require Import Base.Sx Schema.RoundTrip Schema.RoundTripProofs Schema.RoundTripValid.
 Import ListNotations.
 Local Open Scope string_scope.
 
@@ -97,6 +97,56 @@ Theorem C12_parsed_atoms_valid : forall (norm : cust -> string -> option string)
   wtb norm t v = true /\ omitsb t v = true /\ parse norm t (dump t v) = Some v.
 Proof. exact parsed_atoms_valid. Qed.
 Print Assumptions C12_parsed_atoms_valid.
+
+(** Beyond atomic types: for a type whose Unions are unambiguous (members accept pairwise
+    disjoint JSON constructors, recursively) and whose declared defaults are valid
+    (Optional fields default to [None]), everything the parser returns is a valid
+    instance in the sense of [wtb]/[omitsb] ... *)
+Theorem C12_parse_valid : forall (norm : cust -> string -> option string),
+  (forall c s s', norm c s = Some s' -> norm c s' = Some s') ->
+  forall t, unambiguous t = true -> defaults_ok norm t = true ->
+  forall j v, parse norm t j = Some v -> wtb norm t v = true /\ omitsb t v = true.
+Proof. exact parse_valid. Qed.
+Print Assumptions C12_parse_valid.
+
+(** ... so its dump is a canonical form of the input (it parses to the same instance):
+    normalisation through the parser is idempotent. *)
+Theorem C12_parse_idempotent : forall (norm : cust -> string -> option string),
+  (forall c s s', norm c s = Some s' -> norm c s' = Some s') ->
+  forall t, wfb t = true -> unambiguous t = true -> defaults_ok norm t = true ->
+  forall j v, parse norm t j = Some v -> parse norm t (dump t v) = Some v.
+Proof. exact parse_idempotent. Qed.
+Print Assumptions C12_parse_idempotent.
+
+Theorem C12_dump_parse_dump : forall (norm : cust -> string -> option string),
+  (forall c s s', norm c s = Some s' -> norm c s' = Some s') ->
+  forall t, wfb t = true -> unambiguous t = true -> defaults_ok norm t = true ->
+  forall j v v', parse norm t j = Some v -> parse norm t (dump t v) = Some v' ->
+  v' = v /\ dump t v' = dump t v.
+Proof. exact dump_parse_dump. Qed.
+Print Assumptions C12_dump_parse_dump.
+
+(** The unambiguity premise is needed: [Union[Duration, Str]] given [" PT1S "] parses to
+    the stripped string, whose dump the Duration member accepts. *)
+Theorem C12_ambiguous_union_refuted :
+  let t := TUnion [TCus CDuration; TStr] in
+  let j := JStr " PT1S " in
+  unambiguous t = false /\ wfb t = true /\ defaults_ok ex_norm t = true /\
+  exists v v', parse ex_norm t j = Some v /\ wtb ex_norm t v = false /\
+               parse ex_norm t (dump t v) = Some v' /\ v' <> v /\
+               dump t v = JStr "PT1S" /\ v = VUn 1 (VStr "PT1S") /\ v' = VUn 0 (VCus "PT1S").
+Proof. exact ambiguous_union_refuted. Qed.
+Print Assumptions C12_ambiguous_union_refuted.
+
+(** Order and multiplicity of a set-typed input array are irrelevant: two arrays with the
+    same members give sets with the same members, both duplicate-free. *)
+Theorem C12_set_input_order_irrelevant : forall (norm : cust -> string -> option string) t xs ys a,
+  (forall j, In j xs <-> In j ys) ->
+  parse norm (TSet t) (JArr xs) = Some (VSet a) ->
+  exists b, parse norm (TSet t) (JArr ys) = Some (VSet b) /\
+            (forall x, In x a <-> In x b) /\ nodupb a = true /\ nodupb b = true.
+Proof. exact set_input_order_irrelevant. Qed.
+Print Assumptions C12_set_input_order_irrelevant.
 
 (** The pinned tree (no dynamic encoders on schema classes) is refuted by a valid
     instance holding a duration: it has no serialisation, while the repaired dump
